@@ -18,7 +18,7 @@ m = {
  "engines": [{"name": "vf", "path": "/verif/vf", "serves_properties": sorted(CHECKS), "kind_free_text": "runtime monitoring: synthetic CEOS products from an independent encoder, reference decoder, tracing filesystem, icontract contracts, audit hook, deterministic scheduler; 16 worker processes"}],
  "checks": [CHECKS[k] for k in sorted(CHECKS)],
  "not_applicable": [dict(property_id=k, reason=NA.get(k, "check not built yet in this session; see DESIGN.md")) for k in ALL if k not in CHECKS],
- "notes": "Repository fixes are unguarded 'fix:' commits (see known_findings.json 'fixed' entries). VERIF_SEED and VERIF_TIER honoured; VERIF_REPO only for self-tests against scratch copies.",
+ "notes": "Repository fixes are unguarded 'fix:' commits (see known_findings.json 'fixed' entries). VERIF_SEED and VERIF_TIER honoured; VERIF_REPO only for self-tests against scratch copies. Every worker shard runs under one combination of a worker environment matrix (time zone, python -O, eager imports in a seeded order; listed in each evidence file). 170 seeded changes (seeded/) and behaviour-preserving / behaviour-changing-but-allowed probes (refactors/, features/) document what the checks catch and what they stay silent on; tools/selftest_seeded.sh re-runs the former.",
 }
 json.dump(m, open("/verif/MANIFEST.json", "w"), indent=1)
 
